@@ -56,6 +56,7 @@ func BuildWorlds(cfg Config, prop string, nFix, nSyn, rejectPct int, rich bool, 
 			switch nAcc {
 			case 0:
 				opts.SetupName = "my.setup.go"
+				opts.ForceHooks = true
 			case 1:
 				opts.Nested = true
 			case 2:
